@@ -333,6 +333,23 @@ def apply_model(sym, n, f, vals, mut_idx, st):
         if cur is not None and cur[0] == "splitn_tail":
             s = sym.write_place(st, pl, ("splitn_tail", NONE))
             return [(s, (VAL, cur[1]))]
+        if cur is not None and cur[0] == "call" and cur[1] == "std::iter::Iterator::map" and len(cur[2]) == 2 and cur[2][1][0] in ("closure", "fnref") \
+                and pl is not None and pl[3] is None:
+            # next() on `inner.map(f)` held in a local: Some(f(x)) where x is what the underlying iterator yields; the variable keeps
+            # being `rest.map(f)`. The effect is recorded as next() on the variable, like for an un-adapted iterator.
+            s = st.copy()
+            s.n += 1
+            t = ("mcall", p, (vals[0],), s.n)
+            s.effects = s.effects + (("call", p, (vals[0],), s.n),)
+            s = sym.write_place(s, pl, ("call", cur[1], (("after", t, 0), cur[2][1])))
+            out = []
+            for s2, is_some in fork_is(sym, s, t, "Some"):
+                if is_some:
+                    for s3, (k3, v3) in sym.apply(cur[2][1], [mk_payload(t, "Some", "0")], s2, n):
+                        out.append((s3, (VAL, some(v3))))
+                else:
+                    out.append((s2, (VAL, NONE)))
+            return out
 
     # ---- iterators (pure lookahead) -----------------------------------------------------------------------------------
     if p == "std::iter::Peekable::peek":
@@ -353,6 +370,13 @@ def apply_model(sym, n, f, vals, mut_idx, st):
                 for s2, (k, v) in sym.ev(strip_mut(n["args"][0]), st):
                     itv = v
         pred = closure_term(sym, vals[1], 1, st, n)
+        if itv[0] == "call" and itv[1] == "std::iter::Iterator::map" and len(itv[2]) == 2 and itv[2][1][0] in ("closure", "fnref"):
+            # all/any over `inner.map(f)` with predicate p is all/any over `inner` with p . f
+            fterm = closure_term(sym, itv[2][1], 1, st, n)
+            if fterm[0] != "cases":
+                import fc as _fc
+                pred = _fc.rewrite(pred, lambda t_: fterm if t_ == ("bound", 0) else None)
+                itv = itv[2][0]
         s = st
         if n.get("args"):
             pl = sym.place_of(n["args"][0], st)
